@@ -13,6 +13,7 @@ from fractions import Fraction
 import numpy as np
 
 from .. import common, gen
+from . import c17_forces as FO
 from . import c17_util as U
 
 REL = 1e-11
@@ -594,6 +595,123 @@ def check_force_sets(run, rng):
 
 
 # --------------------------------------------------------------------------
+# force collection: same physical forces through every interface's parser
+# --------------------------------------------------------------------------
+
+def check_force_collection(run, rng):
+    import phonopy.units as PU
+    from phonopy import Phonopy
+    from phonopy.cui.create_force_sets import create_FORCE_SETS
+    from phonopy.file_IO import parse_FORCE_SETS
+    from phonopy.interface import calculator as C
+    from phonopy.interface.phonopy_yaml import PhonopyYaml
+    from phonopy.structure.atoms import PhonopyAtoms
+
+    top = os.getcwd()
+    status = {}
+    TOL = 2e-8  # eV/Angstrom; FORCE_SETS carries 10 decimals in the calculator's force unit
+    for layout in ("grouped", "interleaved"):
+        cell, meta = U.random_cell(rng, natom=3, layout=layout, outside=False)
+        smat = np.diag(rng.choice([[2, 1, 1], [1, 2, 1], [1, 1, 2]]))
+        with quiet():
+            ph = Phonopy(cell, supercell_matrix=smat, primitive_matrix="P", log_level=0)
+            ph.generate_displacements(distance=0.03)
+        sc = ph.supercell
+        n = len(sc)
+        fc = gen.pair_fc(sc, cutoff=4.0)
+        dcells = ph.supercells_with_displacements[:4]
+        phys = []
+        for dc in dcells:
+            d = dc.positions - sc.positions
+            drift = np.array([rng.choice([-1, 1]) * rng.randint(8, 40) / 1000.0 for _ in range(3)])  # net force per atom, eV/A
+            phys.append(-np.einsum("ijab,jb->ia", fc, d) + drift)
+        want = [f - f.mean(axis=0) for f in phys]
+        ph.dataset = {"natom": n, "first_atoms": ph.dataset["first_atoms"][:len(dcells)]}
+        for c in FO.INTERFACES:
+            sub = os.path.join(top, "fcoll_%s_%s" % (layout, c))
+            os.makedirs(sub)
+            os.chdir(sub)
+            try:
+                with quiet():
+                    ph.save("phonopy_disp.yaml")
+                phy = PhonopyYaml()
+                phy.read("phonopy_disp.yaml")
+                native = _unit_value(FO.NATIVE_UNIT[c], PU)
+                out_unit = _unit_value(C.get_default_physical_units(c)["force_unit"], PU)
+                try:
+                    with quiet():
+                        order = FO.file_order(c, sc, sub)
+                except (Exception, SystemExit):
+                    order = None  # structure round trip broken: reported by check_roundtrips
+                if order is None:
+                    order = list(range(n))
+                regrouped = order != list(range(n))
+                names = []
+                for i, (dc, f) in enumerate(zip(dcells, phys)):
+                    fcell = PhonopyAtoms(cell=dc.cell, symbols=[dc.symbols[k] for k in order], scaled_positions=dc.scaled_positions[order])
+                    nm = "out-%03d" % (i + 1)
+                    FO.write_output(c, nm, f[order] / native, fcell)
+                    names.append(nm)
+                case = dict(interface=c, layout=layout, unitcell=_cell_dict(cell), supercell_matrix=smat.tolist(), file_order=order,
+                            native_unit=FO.NATIVE_UNIT[c], drift_eV_per_A=[p.mean(axis=0).tolist() for p in phys])
+                run.case(("fcoll", c, layout) + _cell_case(cell), nontrivial=True)
+                run.count("oracle-force-collection", section="oracle")
+                refused = False
+                try:
+                    with quiet():
+                        create_FORCE_SETS(c, names, phpy_yaml=phy, disp_filename="phonopy_disp.yaml", force_sets_filename="FORCE_SETS",
+                                          wien2k_P1_mode=(c == "wien2k"), log_level=0)
+                except RuntimeError as e:
+                    if "match" not in str(e):
+                        raise
+                    refused = True
+                if refused:
+                    run.count("force collection refused (atom order of the output differs)", section="oracle")
+                    if not regrouped:
+                        run.violation("create_FORCE_SETS", "%s-refuses-matching-positions" % c, "%s: outputs in supercell order were refused" % c, case)
+                    status.setdefault(c, set()).add("refused-regrouped")
+                    continue
+                if not os.path.isfile("FORCE_SETS"):
+                    run.violation("create_FORCE_SETS", "%s-forces-not-collected" % c,
+                                  "%s: forces of an output in the program's own layout were not collected (no FORCE_SETS)" % c, case)
+                    continue
+                ds = parse_FORCE_SETS(filename="FORCE_SETS")
+                got = [np.array(d["forces"]) * out_unit for d in ds["first_atoms"]]
+                err = max(np.abs(g - w).max() for g, w in zip(got, want))
+                if err <= TOL:
+                    status.setdefault(c, set()).add("ok")
+                    continue
+                by_file = max(np.abs(g - w[order]).max() for g, w in zip(got, want))
+                raw = max(np.abs(g - p).max() for g, p in zip(got, phys))
+                if regrouped and by_file <= TOL:
+                    if c in FO.NO_POSITIONS:
+                        run.count("regrouped output without positions: pairing by file order not judged (%s)" % c, section="oracle")
+                        continue
+                    run.violation("create_FORCE_SETS", "%s-forces-paired-by-file-order" % c,
+                                  "%s: the structure file groups the atoms by species (order %r), the output follows it, FORCE_SETS pairs the forces "
+                                  "with the supercell order without checking or refusing" % (c, order), case)
+                    continue
+                if raw <= TOL:
+                    status.setdefault(c, set()).add("net-force-kept")
+                    run.violation("create_FORCE_SETS", "%s-net-force-kept" % c,
+                                  "%s: forces arrive atom by atom in the right unit, but the net force %r eV/A is not removed whereas the other "
+                                  "interfaces' parsers remove it: the same physical forces give different force sets" % (c, phys[0].mean(axis=0).round(4).tolist()), case)
+                    continue
+                what = "%s: collected forces differ from F - mean(F) by %.3g eV/A" % (c, err)
+                run.violation("create_FORCE_SETS", "%s-forces-wrong" % c, what + "; unit %s -> %s, drift %r" % (
+                    FO.NATIVE_UNIT[c], C.get_default_physical_units(c)["force_unit"], phys[0].mean(axis=0).round(4).tolist()), case)
+            finally:
+                os.chdir(top)
+        run.sample(dict(kind="force collection", layout=layout, unitcell=_cell_dict(cell), supercell_matrix=smat.tolist(), files=len(dcells),
+                        drift_eV_per_A=phys[0].mean(axis=0).tolist()), limit=10)
+    run.cov["force_collection"] = {
+        "covered": sorted(status), "result": {c: sorted(v) for c, v in status.items()},
+        "native_units": FO.NATIVE_UNIT,
+        "note": "all 16 force parsers are fed synthetic outputs in the program's layout (castep layout from the parser's documentation, "
+                "no castep output in the repository; wien2k in P1 mode; cp2k parser needs no cp2k-input-tools)"}
+
+
+# --------------------------------------------------------------------------
 # end-to-end: one physical crystal in every unit system
 # --------------------------------------------------------------------------
 
@@ -733,7 +851,9 @@ def main(run):
         "k/16 plus integers, 1-3 species interleaved/grouped, collinear moments where the reader returns them) written and read back through "
         "calculator.py's dispatchers, plus every displaced supercell of a small Phonopy run through write_supercells_with_displacements; the pair "
         "goes to the verified checkEquiv in Lean (exact rationals). Non-trivial = species interleaved, or positions outside [0,1), or moments, or "
-        "a displaced supercell; unit cases: a definition whose normal form has >= 2 symbols. " + U.PRECISION_NOTE)
+        "a displaced supercell; unit cases: a definition whose normal form has >= 2 symbols. Force collection: for all 16 force parsers the same "
+        "physical forces (harmonic model + random net force) in the program's output layout/unit/atom order, grouped and interleaved cell, "
+        "collected by create_FORCE_SETS and compared in eV/Angstrom (see coverage.force_collection). " + U.PRECISION_NOTE)
     run.cov["trusted_base"] = [
         "Lean 4.33 kernel; Mathlib v4.33; axioms per theorem in coverage.theorems",
         "tools/units2lean.py (ast translator, ~300 lines): every generated definition is re-evaluated in floats against phonopy.units / get_default_physical_units on every run",
@@ -762,6 +882,7 @@ def main(run):
         rt.flush()
         run.cov["not_covered"] = not_covered
         check_force_sets(run, rng)
+        check_force_collection(run, rng)
         check_unit_invariance(run, rng)
     finally:
         os.chdir(top)
